@@ -20,7 +20,7 @@ RULE = ("(i) all 64 edge subsets of the 4-node topological order x 24 textual or
         "result names, side-effect-only sinks returning None, forward references), several programs per process; (iii) random EEMS models; "
         "each followed by a random history of 0-8 run()/result/metadata/to_string/validate_params steps; distinct by (n, edge count, "
         "styles used, has-sink, has-colliding-strings, history step kinds)")
-REQUIRED_COUNTERS = ["programs_run", "execute_events", "read_events", "history_steps", "reference_values_compared", "flatten_contract_evaluations", "retry_programs", "grown_programs", "api_built_programs", "inside_execute_records_compared", "large_result_programs", "deep_chain_programs", "program_copies_checked"]
+REQUIRED_COUNTERS = ["programs_run", "execute_events", "read_events", "history_steps", "reference_values_compared", "flatten_contract_evaluations", "retry_programs", "grown_programs", "api_built_programs", "inside_execute_records_compared", "large_result_programs", "deep_chain_programs", "program_copies_checked", "programs_evaluated_through_their_commands_only"]
 EXHAUSTIVE_NOTE = "thorough tier enumerates all 64 x 24 x 3 four-command programs"
 ASSUMPTIONS = ["a chain of %d direct references must run under the default recursion limit (the pinned tree manages about 330; deeper chains are left to C13: whatever happens there must be an MPilot error)" % 210,
                "programs that fail to run are judged elsewhere (C12-C14) unless the program is valid by construction",
@@ -70,6 +70,9 @@ def gen_dag(rng, n=None, flaky=False):
     nodes = []
     for i in range(n):
         name = "N%d" % i
+        if i > 0 and rng.random() < 0.06:
+            nodes.append({"name": name, "kind": "BoolSrc", "V": rng.randint(0, 9)})      # a boolean mask: data, though not numeric
+            continue
         if i == 0 or rng.random() < 0.2:
             nodes.append({"name": name, "kind": "Src", "V": rng.randint(0, 10 ** 6)})
             if rng.random() < 0.15:
@@ -127,6 +130,13 @@ def gen_dag(rng, n=None, flaky=False):
         if rng.random() < 0.08:
             node["QL"] = [rng.choice(["nan", "1", "0.5", "inf"]) for _ in range(rng.randint(1, 3))]
         nodes.append(node)
+    # every boolean mask gets consumers that declare they need data (several of them: the producer is validated again by
+    # each consumer that comes after it has finished)
+    k = len(nodes)
+    for nd in [x for x in nodes if x["kind"] == "BoolSrc"]:
+        for _ in range(rng.randint(2, 3)):
+            nodes.append({"name": "N%d" % k, "kind": "DataOp", "D": nd["name"]} if rng.random() < 0.6 else {"name": "N%d" % k, "kind": "DataOp", "LD": [nd["name"], nd["name"]]})
+            k += 1
     return nodes
 
 
@@ -163,6 +173,10 @@ def to_text(nodes, order):
         nd = nodes[i]
         if nd["kind"] == "Src":
             lines.append("%s = Src(V = %d%s)" % (nd["name"], nd["V"], ", Q = %s" % nd["Q"] if "Q" in nd else ""))
+        elif nd["kind"] == "BoolSrc":
+            lines.append("%s = BoolSrc(V = %d)" % (nd["name"], nd["V"]))
+        elif nd["kind"] == "DataOp":
+            lines.append("%s = DataOp(%s)" % (nd["name"], "D = %s" % nd["D"] if "D" in nd else "LD = %s" % _fmt(nd["LD"])))
         elif nd["kind"] == "Sink":
             lines.append("%s = Sink(L = %s)" % (nd["name"], _fmt(nd["L"])))
         elif nd["kind"] == "Flaky":
@@ -197,6 +211,10 @@ def reference(nodes):
             nd = by[name]
             if nd["kind"] == "Src":
                 memo[name] = ("src", name, nd["V"])
+            elif nd["kind"] == "BoolSrc":
+                memo[name] = ("bools", (True, False, bool(nd["V"] % 2)))
+            elif nd["kind"] == "DataOp":
+                memo[name] = ("dataop", name, (("D", val(nd["D"])),) if "D" in nd else (("LD", deep(nd["LD"])),))
             elif nd["kind"] == "Sink":
                 memo[name] = None
             elif nd["kind"] == "Flaky":
@@ -295,6 +313,11 @@ def _gen_history(rng, n):
         k = rng.choice(["run", "run", "read", "read", "read", "metadata", "to_string", "validate", "copy"])
         steps.append([k, rng.randrange(n)])
     return steps
+
+
+def _nb(v):
+    """Boolean masks spelled out (probe results are compared with ==)."""
+    return ("bools", tuple(bool(x) for x in v)) if isinstance(v, numpy.ndarray) and v.dtype == bool else v
 
 
 # ---------------------------------------------------------------- offline checkers
@@ -428,7 +451,7 @@ def run_case(ctx, case):
                 for k, v in nd.items():
                     if k in ("name", "kind"):
                         continue
-                    args[k] = refv(v) if k in ("A", "B", "L", "LL", "N3", "S", "N", "LS", "Any") else (list(v) if isinstance(v, list) else v)
+                    args[k] = refv(v) if k in ("A", "B", "L", "LL", "N3", "S", "N", "LS", "Any", "D", "LD") else (list(v) if isinstance(v, list) else v)
                 prog.add_command(prog.find_command_class(nd["kind"]), nd["name"], args)
         except Exception as e:
             ctx.fail("dag:valid-program-does-not-load:%s" % type(e).__name__, dict(detail, error=repr(e)[:200]))
@@ -446,14 +469,29 @@ def run_case(ctx, case):
     log = trace.start()
     trace.attach(prog)
     err = None
+    orphan = case["kind"] == "dag" and not case.get("exhaustive") and len(text) % 9 == 0
     try:
-        prog.run()
+        if orphan:
+            # a helper built the model and handed back only its commands: the Program object itself is gone by the time the
+            # results are asked for
+            import gc
+            ctx.count("programs_evaluated_through_their_commands_only")
+            cmds = prog.commands
+            del prog
+            gc.collect()
+            for n_ in names:
+                cmds[n_].result
+            prog = cmds[names[0]].program if cmds[names[0]].program is not None else None
+            if prog is None:
+                raise RuntimeError("command lost its program")
+        else:
+            prog.run()
     except Exception as e:
         err = e
     finally:
         trace.stop()
     if err is not None:
-        ctx.fail("dag:valid-program-does-not-run:%s" % type(err).__name__, dict(detail, error=str(err)[:300]))
+        ctx.fail("dag:valid-program-does-not-run:%s%s" % (type(err).__name__, ":program-object-dropped-by-the-caller" if orphan else ""), dict(detail, error=str(err)[:300]))
         return
     returned = check_log(ctx, log, set(names), "dag", detail)
     if returned is None:
@@ -461,8 +499,8 @@ def run_case(ctx, case):
     want = reference(nodes)
     ctx.count("reference_values_compared", len(names))
     for n in names:
-        got = prog.commands[n]._result if prog.commands[n].is_finished else "<unfinished>"
-        if got != want[n] or returned[n] != want[n]:
+        got = _nb(prog.commands[n]._result) if prog.commands[n].is_finished else "<unfinished>"
+        if got != want[n] or _nb(returned[n]) != want[n]:
             ctx.fail("dag:value-differs-from-graph-evaluation", dict(detail, command=n, got=repr(got)[:300], want=repr(want[n])[:300]))
             return
     kinds = run_history(ctx, prog, names, returned, case["history"], "dag", detail)
@@ -673,7 +711,7 @@ def run_retry(ctx, case):
     ctx.count("reference_values_compared", len(names))
     for n in names:
         c = prog.commands[n]
-        if not c.is_finished or c._result != want[n]:
+        if not c.is_finished or _nb(c._result) != want[n]:
             ctx.fail("retry:value-differs-from-graph-evaluation", dict(detail, command=n, got=repr(c._result)[:200], want=repr(want[n])[:200], finished=c.is_finished))
             return
     ctx.feature(("retry", len(nodes), len(ok1), len(ok2)))
@@ -725,7 +763,7 @@ def run_grow(ctx, case):
         if ex2.count(e["name"]) != 1 or not c.is_finished:
             ctx.fail("grow:added-command-not-executed-by-run", dict(detail, command=e["name"], executions=ex2.count(e["name"])))
             return
-        if c._result != want[e["name"]]:
+        if _nb(c._result) != want[e["name"]]:
             ctx.fail("grow:added-command-fed-wrong-values", dict(detail, command=e["name"], got=repr(c._result)[:200], want=repr(want[e["name"]])[:200]))
             return
     ctx.count("reference_values_compared", len(case["extra"]))
